@@ -458,6 +458,15 @@ pub fn apply_faults(base: &[u8], faults: &[LinkFault]) -> Vec<u8> {
                 m = out;
             }
             LinkFault::Replace(b) => m = b.clone(),
+            LinkFault::Repeat { prefix, unit, times, suffix } => {
+                let mut out = Vec::with_capacity(prefix.len() + unit.len() * (*times as usize) + suffix.len());
+                out.extend_from_slice(prefix);
+                for _ in 0..*times {
+                    out.extend_from_slice(unit);
+                }
+                out.extend_from_slice(suffix);
+                m = out;
+            }
         }
     }
     m
@@ -627,6 +636,35 @@ fn sweep_for(decoder: &str, base: &[u8]) -> Vec<Vec<LinkFault>> {
             out.push(vec![LinkFault::ByteSet(65, l)]);
         }
     }
+    // large repetitive inputs: time must stay in proportion to the size
+    let units: [&[u8]; 9] = [b"A\n", b"A", b" ", b"1", b"a.", b"AA:", b"\\u0041", b"=", b"-_"];
+    let big = |pre: &str, unit: &[u8], total: usize, suf: &str| LinkFault::Repeat { prefix: pre.as_bytes().to_vec(), unit: unit.to_vec(), times: (total / unit.len()) as u32, suffix: suf.as_bytes().to_vec() };
+    if decoder.starts_with("str:") {
+        for u in units {
+            for total in [64usize << 10, 512 << 10] {
+                out.push(vec![big("", u, total, "")]);
+            }
+        }
+    }
+    let json_wrap: Option<(&str, &str)> = match decoder {
+        "json:CredentialRequestOptions" => Some(("{\"publicKey\":{\"challenge\":\"", "\"}}")),
+        "json:CredentialCreationOptions" => Some(("{\"publicKey\":{\"rp\":{\"name\":\"r\"},\"user\":{\"id\":\"AA\",\"name\":\"n\",\"displayName\":\"d\"},\"pubKeyCredParams\":[],\"challenge\":\"", "\"}}")),
+        "json:CollectedClientData" => Some(("{\"type\":\"webauthn.get\",\"origin\":\"https://example.com\",\"challenge\":\"", "\"}")),
+        "json:AuthenticatedPublicKeyCredential" => Some(("{\"id\":\"AA\",\"type\":\"public-key\",\"response\":{\"clientDataJSON\":\"AA\",\"authenticatorData\":\"AA\",\"signature\":\"AA\"},\"clientExtensionResults\":{},\"rawId\":\"", "\"}")),
+        _ => None,
+    };
+    if let Some((pre, suf)) = json_wrap {
+        for u in units {
+            if u == b"\\u0041" || u.iter().all(|b| b.is_ascii_graphic() && *b != b'"' && *b != b'\\') || u == b" " || u == b"A\n" {
+                let unit: &[u8] = if u == b"A\n" { b"A\\n" } else { u };
+                for total in [64usize << 10, 512 << 10] {
+                    out.push(vec![big(pre, unit, total, suf)]);
+                }
+            }
+        }
+        // a long array of small numbers in a binary member, and a long timeout string
+        out.push(vec![LinkFault::Repeat { prefix: format!("{}[", &pre[..pre.len() - 1]).into_bytes(), unit: b"1,".to_vec(), times: 200_000, suffix: format!("1]{}", &suf[1..]).into_bytes() }]);
+    }
     if decoder.starts_with("str:") {
         out.push(vec![LinkFault::Nest { depth: 5_000, open: b"a.".to_vec(), close: vec![] }]);
         out.push(vec![LinkFault::Nest { depth: 20_000, open: b".".to_vec(), close: b".".to_vec() }]);
@@ -704,10 +742,11 @@ impl Family for C15Family {
             id: "C15",
             level: "fault_enumeration",
             rule: "link world: for every public decoder (19 receiving ends: 5 WebAuthn JSON types, 6 CTAP2 CBOR types, AuthenticatorData, Bytes, U2F request, COSE key converter, fingerprint, domain/RP-ID, origin+RP-ID, and the stateful CTAPHID ChannelHandler) valid in-flight messages are produced by the real encoders (a simulated ceremony, the real HID sender, serde of real request values). Systematic single-fault sweep per message: truncation at every offset, a flip of every bit of the first 256 bytes, extension, at every CBOR header of a length-bearing item a rewrite of the declared length to 2^16-1, 2^16, 2^32-1, 2^40, 2^63-1, JSON numbers rewritten to huge values, nesting 64-100000 deep, U2F P1/INS/length fields over their whole range, HID packets resized to every length 0-130 with BCNT/seq rewritten, dropped, duplicated, swapped, and a 301-packet continuation stream; then seeded multi-fault combinations. Each case runs in a crash-isolated worker with a counting allocator and a per-case watchdog. Non-trivial = every damaged case (the undamaged one is the control); distinct = distinct (decoder, damaged bytes).",
-            assumptions: &["bounds: a single allocation above 256 x input length + 2 MiB, peak live heap above 512 x input length + 16 MiB (serde's own cautious pre-allocation of at most 1 MiB per sequence in progress - one per nesting level and per sibling field being filled - is deliberately inside the bound), or more than 0.5 s + 20 us per input byte of CPU time for one case (measured per case on the decoding thread; a watchdog kills a worker after 10 s of CPU; honest decodes take microseconds to milliseconds) count as out of proportion", "the watchdog is the only measured (not computed) quantity in the whole simulator"],
+            assumptions: &["bounds: a single allocation above 256 x input length + 2 MiB, peak live heap above 512 x input length + 16 MiB (serde's own cautious pre-allocation of at most 1 MiB per sequence in progress - one per nesting level and per sibling field being filled - is deliberately inside the bound), or more than 0.25 s + 1 us per input byte of CPU time for one case (measured per case on the decoding thread; a watchdog kills a worker after 10 s of CPU; honest decodes take microseconds to milliseconds) count as out of proportion", "the watchdog is the only measured (not computed) quantity in the whole simulator"],
             real: &["serde Deserialize impls of all passkey-types WebAuthn/CTAP2 messages", "AuthenticatorData::from_slice", "Bytes::try_from(&str)", "u2f::Request::try_from", "public_key_der_from_cose_key", "valid_fingerprint", "public_suffix::effective_tld_plus_one", "RpIdVerifier::{is_valid_rp_id,assert_domain}", "hid::ChannelHandler::handle_packet", "the encoders that produced the corpus"],
             stubs: &["the link (fault injector)", "counting allocator", "watchdog", "worker isolation"],
             crash_isolated: true,
+            fresh_thread: false,
         }
     }
 
@@ -838,6 +877,7 @@ impl Family for C15Family {
                     LinkFault::Splice(..) => "length_or_token_rewrite",
                     LinkFault::Nest { .. } => "deep_nesting",
                     LinkFault::Replace(_) => "replace",
+                    LinkFault::Repeat { .. } => "large_repetitive_input",
                 },
                 1,
             );
@@ -875,7 +915,7 @@ impl Family for C15Family {
         }
         // processing time in proportion to the input: honest decodes take microseconds to a few
         // milliseconds; the bound leaves three orders of magnitude and is in CPU time of this thread
-        let cpu_bound_us = 500_000 + 20 * input_len as u64;
+        let cpu_bound_us = 250_000 + input_len as u64;
         if cpu_us > cpu_bound_us {
             fail(format!("C15/cpu:{}", l.decoder), format!("decoder {} consumed {} ms of CPU time on a {input_len}-byte input (bound {} ms)", l.decoder, cpu_us / 1000, cpu_bound_us / 1000));
         }
